@@ -8,6 +8,9 @@ import concurrent.futures as cf
 from lib import vlib
 
 ASSUMPTIONS = [
+    "thorough tier only: 12 shards of the random workload are also executed inside the Miri interpreter (same oracles); an "
+    "undefined-behaviour report with a frame in /repo is a violation, one entirely inside third-party crates or std is "
+    "recorded as inconclusive; Miri cases are not added to `evaluations`",
     "the independent encoder: own percent-encoder over the RFC 3986 unreserved set (allowed literals left alone "
     "half of the time, unreserved characters occasionally over-escaped, random hex case, space as '+' or %20 and a "
     "literal '+' always as %2B in query/form components), own k=v& joiner, own JSON object/array/string printer "
@@ -96,7 +99,16 @@ def run(ctx):
         for k in ("elapsed_s", "shard", "workload"):
             s.pop(k, None)
     shapes = summaries[0].get("shapes")
+    miri = None
+    if not ctx.quick:
+        # sanitizer supplement: the same harness, the same oracles, interpreted by Miri (shards != 0 skip the exhaustive pool)
+        n = 12
+        sets = [["--seed", ctx.seed, "--tier", tier, "--shard", "%d/%d" % (i + 1, n + 1), "--budget-s", 150] for i in range(n)]
+        _, miri = vlib.run_under_miri(ctx, "bodyx", "extract", sets, 1500, "C15 typed extractors",
+                                      ["--seed", ctx.seed, "--tier", tier, "--shard", "1/2", "--budget-s", 0.01])
     cov = vlib.merge_summaries(summaries)
+    if miri:
+        cov["miri_supplement"] = miri
     cov["shapes"] = shapes
     cov["maxima"] = maxima
     cov["rule"] = RULE
